@@ -60,7 +60,7 @@ Theorem C01_ready_read_is_dispatched : forall s i o p mask,
   lookup i (l_objs s) = Some o -> o_evR o = true -> o_rd o = Some p ->
   has mask mIN || has mask mHUP || has mask mERR = true ->
   exists items, snd (poll_entry s (0, i, mask)) = items ++ (if has mask mOUT || (has mask mHUP || has mask mERR) then [IPollWrite i] else []) /\
-    ((exists e n, items = [IInvoke (op_cb p) e n false]) \/
+    ((exists e n wr, items = [IInvoke (op_cb p) e n wr]) \/
      (items = [] /\ (armed (fst (poll_entry s (0, i, mask))) i false \/ l_fuel_out (fst (poll_entry s (0, i, mask))) = true))).
 Proof. exact ready_read_is_dispatched. Qed.
 Print Assumptions C01_ready_read_is_dispatched.
@@ -70,7 +70,7 @@ Print Assumptions C01_ready_read_is_dispatched.
    underneath the object the callback still runs exactly once, but with the poller's error instead. *)
 Theorem C01_cancel_completes_read_once : forall s i o p,
   lookup i (l_objs s) = Some o -> o_evR o = true -> o_rd o = Some p -> ctl_ok o = true ->
-  snd (do_action s (ACancel i)) = [IInvoke (op_cb p) xCancelled (op_sofar p) false; ICancelWrites i] /\
+  snd (do_action s (ACancel i)) = [IInvoke (op_cb p) xCancelled (op_sofar p) (is_pkt o && op_wrapped p); ICancelWrites i] /\
   exists o', lookup i (l_objs (fst (do_action s (ACancel i)))) = Some o' /\ o_evR o' = false.
 Proof. exact cancel_completes_read. Qed.
 Print Assumptions C01_cancel_completes_read_once.
